@@ -10,13 +10,14 @@ missed = [m for m in rows if m['initially_missed']]
 own = sorted(os.path.basename(f) for f in glob.glob(V + '/mutants/*.diff'))
 out = '''## 10. Sensitivity: which check catches which seeded change
 
-Four waves of fourteen independent sub-agents (one per claimed property and wave) were each given
+Five waves of fourteen independent sub-agents (one per claimed property and wave) were each given
 only the text of one property and a scratch git worktree of /repo, nothing from /verif, and asked
 for a small realistic change that breaks the property, still compiles, passes the repository's
 tests and needs something specific to manifest, with a demonstration. The second and third wave
 were steered to a different anchor file of the property than the earlier ones, the fourth to a
 kind of manifestation the earlier ones had not used (a boundary of a tuning constant, state that
-survives between sessions or compilations, a transient fault, a count field, a release ordering).
+survives between sessions or compilations, a transient fault, a count field, a release ordering),
+the fifth to parts of each property's code that no earlier change had touched.
 All %d changes were
 confirmed by `bin/confirm-seeded` (patch applies to HEAD; `go build ./...`; `go test` of every
 package except the root passes; the demonstration fails with the change and passes without it) and
@@ -26,7 +27,7 @@ reverts; %d own mutants live under `/verif/mutants/` (hand-made ones and every `
 reversed).
 
 %d of the %d were **missed at first** (6 of 14 in the first wave, 3 of 14 in the second, 1 of 14
-in the third, 5 of 14 in the fourth) and led to the extensions marked below; no oracle was loosened or tightened for
+in the third, 5 of 14 in the fourth, 3 of 14 in the fifth) and led to the extensions marked below; no oracle was loosened or tightened for
 them - only workloads, fault kinds, scheduling points, the independence of the harness's
 expectations, (C04) one more monitor clause and (C11) one narrow clause for a new fault kind changed.
 
@@ -71,6 +72,10 @@ What the misses taught (kept as rules for the workloads):
 * A deferred "done = true" in a harness task also runs when the kernel unwinds blocked tasks at
   the end of a run; the harness asks `rt.Unwinding()` (found with C10-d: the verdict was right,
   the clause name was not).
+
+* Degenerate shapes are shapes: a 0-bit argument (C02-e), exactly two imports (C08-e). And the
+  option a property names must be exercised where the user sets it: the malicious flag is an
+  argument of `ot.NewCOT`, one layer above the IKNP calls the C15 world drove (C15-e).
 
 Own mutants (`/verif/mutants/*.diff`; `revert-<commit>` is a `fix:` commit reversed): ''' + ', '.join(own) + '''.
 
